@@ -116,6 +116,37 @@ func c01Construct(c c01Case) (a bchutil.Address, wantStr string, wantScript []by
 	return
 }
 
+// c01TypedPayload: the typed views of the payload (Hash160 / Hash256 / PubKey) are the payload.
+func c01TypedPayload(a bchutil.Address, want []byte) error {
+	switch t := a.(type) {
+	case interface{ Hash160() *[20]byte }:
+		if h := t.Hash160(); h == nil || !bytes.Equal(h[:], want) {
+			return fmt.Errorf("Hash160() = %x, want %x", h, want)
+		}
+	case interface{ Hash256() *[32]byte }:
+		if h := t.Hash256(); h == nil || !bytes.Equal(h[:], want) {
+			return fmt.Errorf("Hash256() = %x, want %x", h, want)
+		}
+	case *bchutil.AddressPubKey:
+		pk := t.PubKey()
+		if pk == nil || !onCurve(pk.X, pk.Y) {
+			return fmt.Errorf("PubKey() is not a point of the curve")
+		}
+		if x := pad32(pk.X); !bytes.Equal(x, want[1:33]) {
+			return fmt.Errorf("PubKey().X = %x, the serialisation carries %x", x, want[1:33])
+		}
+		if len(want) == 65 && !bytes.Equal(pad32(pk.Y), want[33:]) {
+			return fmt.Errorf("PubKey().Y = %x, the serialisation carries %x", pad32(pk.Y), want[33:])
+		}
+		if len(want) == 33 && byte(pk.Y.Bit(0)) != want[0]&1 {
+			return fmt.Errorf("PubKey().Y has the wrong parity for format byte %#x", want[0])
+		}
+	default:
+		return hbug("address type %T without a typed payload accessor", a)
+	}
+	return nil
+}
+
 func evalC01(c c01Case, o *Obs) error {
 	if c.Kind < 0 || c.Kind >= akCount || c.Net < 0 || c.Net >= len(nets) {
 		return hbug("bad case")
@@ -138,6 +169,9 @@ func evalC01(c c01Case, o *Obs) error {
 	}
 	o.NT()
 	o.Class("C01:%s/%s", name, nets[c.Net].Name)
+	if err := c01TypedPayload(a, wantScript); err != nil {
+		return fmt.Errorf("%s on %s: %v", name, nets[c.Net].Name, err)
+	}
 	if !bytes.Equal(a.ScriptAddress(), wantScript) {
 		return fmt.Errorf("%s on %s: ScriptAddress() = %x, want %x (payload %x)", name, nets[c.Net].Name,
 			a.ScriptAddress(), wantScript, []byte(c.Payload))
@@ -183,6 +217,9 @@ func evalC01(c c01Case, o *Obs) error {
 		}
 		if reflect.TypeOf(d) != reflect.TypeOf(a) {
 			return fmt.Errorf("%s on %s: DecodeAddress(%q) has kind %T, constructed kind %T", name, nets[c.Net].Name, r, d, a)
+		}
+		if err := c01TypedPayload(d, wantScript); err != nil {
+			return fmt.Errorf("%s on %s: DecodeAddress(%q): %v", name, nets[c.Net].Name, r, err)
 		}
 		if !bytes.Equal(d.ScriptAddress(), wantScript) {
 			return fmt.Errorf("%s on %s: DecodeAddress(%q).ScriptAddress() = %x, want %x", name, nets[c.Net].Name, r,
